@@ -69,15 +69,18 @@ type Session struct {
 // create session between client<->proxy
 func newSession(s *Server, co net.Conn) *Session {
 	cc := new(Session)
-	tcpConn := co.(*net.TCPConn)
 
 	//SetNoDelay controls whether the operating system should delay packet transmission
 	// in hopes of sending fewer packets (Nagle's algorithm).
 	// The default is true (no delay),
 	// meaning that data is sent as soon as possible after a Write.
 	//I set this option false.
-	tcpConn.SetNoDelay(true)
-	cc.c = NewClientConn(mysql.NewConn(tcpConn), s.manager)
+	// Only a TCP connection has the option: with proto_type=unix the listener hands out
+	// *net.UnixConn, and an unchecked type assertion here panics outside onConn's recover.
+	if tcpConn, ok := co.(*net.TCPConn); ok {
+		tcpConn.SetNoDelay(true)
+	}
+	cc.c = NewClientConn(mysql.NewConn(co), s.manager)
 	cc.proxy = s
 	cc.manager = s.manager
 
